@@ -29,6 +29,21 @@ CHECKS = {
     "C17": ("spec/MSClient.tla RefList/GetOutcomes over look-alike name and body pools in every encoding; replayed unsegmented and under a seeded segmentation; DataNeverProtocol model-checked on the reader",
             "listscripts / getscript values equal the abstract reply's names, active flag and body lines (line-ending style and trailing blank lines ignored)",
             "finite pools of names/bodies biased to protocol look-alikes and exotic line separators", "4/C17"),
+    "C08": ("spec/MSWire.tla Encode/Decode: RoundTrip and SelfDelimiting model-checked for every value over a hostile alphabet; the harness's strict decoder is checked against the specification's encoder on every value, then applied to what Client writes for every operation x argument position",
+            "for every enumerated value and operation the bytes written decode (strict RFC 5804 server-side parser) to exactly one command of the intended verb with the caller's arguments, or nothing is written and Error is raised",
+            "values longer than MaxLen symbols only by the seeded generator; decoder trusted after cross-check with the spec", "4/C08"),
+    "C10": ("spec/MSSession.tla: connect/STARTTLS/AUTHENTICATE life-cycle, one action per step, every server reaction; invariants model-checked; every history replayed with scripted plain/TLS sockets; the observed raw event trace validated by TLC (spec/MSSessionTrace.tla: NoScriptCmdBeforeAuth, NoCredsBeforeTLS, MechFromPostTLSCaps) plus a static decorator check",
+            "on every replayed history (all call histories up to MaxCalls x all reactions) no script command is written on a connection whose AUTHENTICATE was not answered OK, no AUTHENTICATE before a successful handshake when STARTTLS was requested, mechanism from the post-TLS capabilities",
+            "TLS is an atomic handshake step with a patched context; bounds in evidence", "4/C10"),
+    "C14": ("spec/MSRename.tla reference emulated rename with one fault at any step: RenameNoLoss/NoOverwrite/SuccessPost model-checked in every intermediate state for every initial store; each scenario replayed; the observed command/reply trace is re-executed by TLC with the specification's server semantics (spec/MSStoreTrace.tla) and judged",
+            "for every initial store x (old,new) x fault step x fault kind the store after the real client's emulated rename satisfies the C14 predicates, as decided by TLC on the recorded trace",
+            "exhaustive over 2 (quick) / 3 (thorough) names and 2 bodies; scripted server checked against MSStore!Srv", "4/C14"),
+    "C15": ("spec/MSSessGen.tla generates sessions (exhaustive short, tlc -simulate long) with server choices; replayed against a scripted server under seeded segmentation; spec/MSStoreTrace.tla re-executes the observed commands and judges every result (ResultMirrorsStatus, ViewMatchesStore, OutOfStep, MalformedCommand)",
+            "every call's result equals the specification server's state at that moment and answers its own command, on every generated session",
+            "sampling beyond 2 operations; name/body pools without protocol look-alikes (C17 covers those)", "4/C15"),
+    "C16": ("spec/MSCommon.tla ChooseMech + spec/MSSessionTrace.tla MechRight / ConnectTrue clauses on the observed trace for all ordered mechanism lists x preferences x verdicts; AUTHENTICATE payloads decoded per mechanism (RFC 4616, LOGIN, RFC 7628)",
+            "the mechanism written equals ChooseMech(announced, preferred), nothing is written when none qualifies, the payload carries exactly the caller's credentials, connect is True iff the server said OK",
+            "payload decoders trusted; DIGEST-MD5 exchange not decoded (open finding F10: the module crashes)", "4/C16"),
 }
 
 NOT_YET = {}
